@@ -474,9 +474,19 @@ class Driver:
     # ---------------------------------------------------------------- events
     def ev_call(self, ev):
         _, n_jobs, pre, mode, N, ifail, tfail, timeout = ev
+        if self.case.get("pre_expr") and isinstance(pre, int):
+            # the same amount written as an expression in n_jobs ('2*n_jobs', 'n_jobs+1', ...): `n_jobs` there is the
+            # number of workers the backend grants, which is what the model's n_jobs is
+            if pre % n_jobs == 0:
+                pre = "%d*n_jobs" % (pre // n_jobs)
+            elif pre > n_jobs:
+                pre = "n_jobs+%d" % (pre - n_jobs)
+            else:
+                pre = "n_jobs-%d" % (n_jobs - pre)
         if self.par is None or self.case.get("fresh_object_per_call"):
             self.backend = VerifBackend(n_jobs)
-            self.par = Parallel(n_jobs=n_jobs, backend=self.backend, batch_size="auto",
+            # "over_request": the user asks for more workers than the backend grants (effective_n_jobs caps the request)
+            self.par = Parallel(n_jobs=n_jobs * self.case.get("over_request", 1), backend=self.backend, batch_size="auto",
                                 pre_dispatch=pre, timeout=timeout,
                                 return_as="generator" if mode == "ordered" else "generator_unordered")
             self.trk_of_batch = []
